@@ -141,13 +141,46 @@ fn check_state(chain: &LongChain<'_>, model: &[u8], after: &str) -> Result<(), (
     } else if ch.is_empty() || !model.starts_with(ch) {
         return Err((format!("chunk:{after}"), format!("after {after}: chunk() = {:?} is not a non-empty prefix of {:?}", ch, model)));
     }
-    // generic Buf consumption (safe now: no empty chunk, lengths agree)
+    // generic Buf consumption, the way bytes' default methods (copy_to_bytes, put, ...) do it: chunk() / advance(chunk.len())
+    // until nothing remains. Done by hand first, so that a broken chunk()/advance() contract (an empty chunk while bytes
+    // remain, remaining() not decreasing) is reported instead of looping for ever inside bytes' own loop.
+    let mut cl = chain.clone();
+    let got = guarded_drain(&mut cl, model.len()).map_err(|m| (format!("buf-contract:{after}"), format!("after {after}: {m} (contents {:?})", model)))?;
+    if got != model || cl.remaining() != 0 {
+        return Err((format!("buf-drain:{after}"), format!("after {after}: draining through Buf yields {:?} want {:?}", got, model)));
+    }
+    // and through the real default method (cannot loop now)
     let mut cl = chain.clone();
     let got = cl.copy_to_bytes(cl.remaining());
     if got.as_ref() != model || cl.remaining() != 0 {
-        return Err((format!("buf-drain:{after}"), format!("after {after}: draining through Buf yields {:?} want {:?}", got, model)));
+        return Err((format!("buf-drain:{after}"), format!("after {after}: copy_to_bytes yields {:?} want {:?}", got, model)));
     }
     Ok(())
+}
+
+/// chunk()/advance() loop of the `Buf` contract with every step checked: Err = the contract is broken
+pub fn guarded_drain<B: Buf>(b: &mut B, want: usize) -> Result<Vec<u8>, String> {
+    let mut got = Vec::with_capacity(want);
+    while b.has_remaining() {
+        let before = b.remaining();
+        let c = b.chunk();
+        if c.is_empty() {
+            return Err(format!("chunk() is empty although remaining() = {before}: every generic consumer of Buf (copy_to_bytes, put, writev) spins for ever here; {} bytes drained so far", got.len()));
+        }
+        let n = c.len();
+        if n > before {
+            return Err(format!("chunk() has {n} bytes but remaining() = {before}"));
+        }
+        got.extend_from_slice(c);
+        b.advance(n);
+        if b.remaining() != before - n {
+            return Err(format!("advance({n}) changed remaining() from {before} to {}", b.remaining()));
+        }
+        if got.len() > want + 64 {
+            return Err(format!("more than {} bytes drained from a buffer that should hold {want}", got.len()));
+        }
+    }
+    Ok(got)
 }
 
 fn op_name(op: &Op) -> &'static str {
@@ -543,6 +576,7 @@ pub fn run_cow(case: &CowCase) -> Outcome {
             let n = model.len();
             let at = |k: u8| (k as usize * (n + 1)) >> 8; // always in range 0..=n
             let (mut rt, mut rs, mut rm): (Option<Vec<u8>>, Option<Vec<u8>>, Option<Vec<u8>>) = (None, None, None);
+            let mut contract: Option<String> = None;
             let r = quiet_catch(|| match op {
                 COp::SplitTo(k) => {
                     let a = at(*k);
@@ -578,13 +612,25 @@ pub fn run_cow(case: &CowCase) -> Outcome {
                 }
                 COp::CopyToBytes(k) => {
                     let a = at(*k);
-                    rt = Some(t.copy_to_bytes(a).to_vec());
-                    rs = Some(s.copy_to_bytes(a).to_vec());
-                    rm = Some(model.drain(..a).collect());
+                    // (contract checked on clones first so that the default copy_to_bytes below cannot spin)
+                    for probe in [&t, &s] {
+                        let mut c = probe.clone();
+                        if let Err(m) = guarded_drain(&mut c, n) {
+                            contract = Some(m);
+                        }
+                    }
+                    if contract.is_none() {
+                        rt = Some(t.copy_to_bytes(a).to_vec());
+                        rs = Some(s.copy_to_bytes(a).to_vec());
+                        rm = Some(model.drain(..a).collect());
+                    }
                 }
             });
             if let Err(p) = r {
                 return Outcome::violation("cow-panic-in-range", format!("step {step}: {op:?} panicked in range: {p}"));
+            }
+            if let Some(m) = contract {
+                return Outcome::violation("cow-buf-contract", format!("step {step}: {op:?}: {m}"));
             }
             if rt != rm || rs != rm {
                 return Outcome::violation("cow-return", format!("step {step}: {op:?} returned temp={rt:?} static={rs:?} model={rm:?}"));
